@@ -37,6 +37,8 @@ typedef std::vector<uint8_t> Bytes;
 struct Seg {
     int64_t off;    // position of the first byte relative to the first stream byte (sequence number ISN+1); < 0: before the ISN
     uint32_t len;
+    int edge;       // >= 0: off is fixed up when the segment arrives so that it starts exactly 2^31-1-edge behind the delivery point
+    Seg(int64_t o = 0, uint32_t l = 0, int e = -1) : off(o), len(l), edge(e) {}
     int64_t end() const { return off + (int64_t)len; }
 };
 
@@ -278,13 +280,15 @@ static void decode_structured(Src& s, Case& c, Ctx& ctx) {
                 uint64_t d;
                 // the start stays within half the sequence space (distance < 2^31) of every later delivery point
                 const uint64_t far_max = 0x7fffffffULL - n;
+                int edge = -1;
                 switch (e.weighted({3, 2, 2, 1})) {
                     default:
                     case 0: d = 1 + e.range(0, 15); break;
                     case 1: d = 1 + e.range(0, 69999); break;
                     case 2: d = 1 + e.range(0, far_max - 1); break;
-                    case 3: d = far_max - e.range(0, 15); break;   // at the edge of the half space
+                    case 3: edge = (int)e.range(0, 3); d = far_max - (uint64_t)edge; break;   // at the edge of the half space, see fix_edges()
                 }
+                if (edge >= 0) { g = Seg{-(int64_t)d, (uint32_t)e.range(0, 64), edge}; break; }
                 const uint64_t lmax = ctx.tier ? 65535 : 4096;
                 switch (e.weighted({3, 2, 2})) {
                     default:
@@ -376,6 +380,20 @@ static void decode_structured(Src& s, Case& c, Ctx& ctx) {
     for (size_t i : ord) c.segs.push_back(list[i]);
 }
 
+// segments marked "edge" are placed relative to the delivery point at the moment they arrive: their first byte is exactly
+// 2^31-1-edge behind it, the largest distances the half-space condition of the statement admits (they end far before the
+// delivery point, so they are ignored on arrival and later delivery points do not matter)
+static void fix_edges(Case& c) {
+    bool any = false;
+    for (const Seg& g : c.segs) if (g.edge >= 0) any = true;
+    if (!any) return;
+    Model m(c);
+    for (Seg& g : c.segs) {
+        if (g.edge >= 0) g.off = (int64_t)m.k - (0x7fffffffLL - g.edge);
+        m.arrive(g);
+    }
+}
+
 // ---------------------------------------------------------------- plan + classification of the case
 static Plan make_plan(const Case& c, Ctx& ctx) {
     Plan p;
@@ -418,7 +436,7 @@ static Plan make_plan(const Case& c, Ctx& ctx) {
             else if (g.end() == 0) ctx.label("pre-isn-ends-at-isn");
             else ctx.label("pre-isn-reaches-into-stream");
             if (-g.off > 0x40000000LL) ctx.label("pre-isn-far");
-            if (-g.off + (int64_t)c.n > 0x7fffff00LL) ctx.label("pre-isn-at-edge-of-half-space");
+            if (-g.off + (int64_t)kb >= 0x7fffffffLL - 3) ctx.label("pre-isn-at-edge-of-half-space");
         }
         if (g.len > 0) {
             if (g.off > (int64_t)kb) ooo++;
@@ -730,6 +748,7 @@ void prop(Src& s, Ctx& ctx) {
     uint8_t sel = s.u8();
     if (sel >= 192) decode_literal(s, c);
     else decode_structured(s, c, ctx);
+    fix_edges(c);
     run_case(c, ctx);
 }
 
